@@ -77,6 +77,9 @@ def run(ctx):
     import skippers
     skippers.default_skipper_binary_arm(rep, 'R13.k', prog)
     skippers.default_skipper_widths(rep, 'R13.k', prog, cg)
+    skippers.default_skipper_counts_headers(rep, 'R13.k', prog)
+    import c11
+    c11.len_passes_agree(rep, 'R13.l', prog, cg)
     unsafe_codec.skipper_tables(rep, 'R13.k', prog, cg)
     rep.programs = 7
     rep.disagreements_checked = rep.obligations
